@@ -308,9 +308,13 @@ func (fr *Frame) execGo(in *ssa.Go) {
 		for _, n := range names {
 			gnames = append(gnames, "go:"+n)
 		}
+		gvars := map[string]EV{}
+		for i, a := range fr.callArgVals(cc) {
+			gvars[fmt.Sprintf("$%d", i)] = valToEV(a, fr.argType(cc, i))
+		}
 		for _, aa := range c.Asserts {
 			if nameMatches(gnames, aa.Callee) {
-				ctx := fr.ctxHere()
+				ctx := fr.ctxHere().with(gvars)
 				goal := Implies(fr.cur, ctx.Bool(aa.Clause.E))
 				fr.R.addObl("assert", aa.Callee+":"+aa.Clause.Label, goal, aa.Clause.Src, &aa.Clause, in.Pos())
 				fr.R.addCover("assert-"+aa.Clause.Label+"-reachable", fr.cur)
